@@ -509,7 +509,11 @@ class Array(metaclass=MetaArray):
             isinstance(value, cls)
             and not cls._has_refs
             and value._size == info.size
-        ):  # binary copy
+            and (
+                cls._is_static_type
+                or np.array_equal(value._offsets, info.offsets)
+            )
+        ):  # binary copy: only if the source is laid out as planned
             buffer.update_from_xbuffer(
                 offset, value._buffer, value._offset, value._size
             )
